@@ -217,6 +217,19 @@ def inv1(ctx, prog, cfg, only=None):
                         fld = tgt[1][2][0]
                         ok = mir.strip_casts(a[1]) == ("int", 0)
                         writers[fld].setdefault(f.short, []).append((b, i, ok, "raw write of %s" % mir.fmt(a[1], f)))
+                if st["k"] == "call" and mir.callee_path(st) in ("core::mem::replace", "core::mem::take"):
+                    # mem::replace(&mut _.size, v) stores v; mem::take(&mut _.size) stores 0
+                    a = f.call_args(b)
+                    tgt = a[0] if a else None
+                    if isinstance(tgt, tuple) and tgt[0] == "ref" and tgt[1][0] == "place" and tuple(tgt[1][2])[-1:] in (("size",), ("start",)):
+                        fld = tuple(tgt[1][2])[-1]
+                        if mir.callee_path(st).endswith("take"):
+                            ok, why = True, "mem::take: const 0"
+                        elif fld == "size":
+                            ok, why = _shape_size(f, b, i, a[1], tgt[1][1])
+                        else:
+                            ok, why = _shape_start(f, b, i, a[1])
+                        writers[fld].setdefault(f.short, []).append((b, i, ok, why))
                 continue
             if st["k"] != "assign":
                 continue
@@ -231,6 +244,29 @@ def inv1(ctx, prog, cfg, only=None):
                 else:
                     ok, why = _shape_start(f, b, i, e)
                 writers[fld].setdefault(f.short, []).append((b, i, ok, why))
+            if st["rv"]["k"] in ("ref", "rawptr") and st["rv"].get("mut") and mir.place_fields(st["rv"]["place"])[-1:] in (["size"], ["start"]) \
+                    and "usize" == st["rv"]["place"].get("ty", "usize"):
+                # a mutable reference/pointer to a header field: only as the direct operand of mem::replace / mem::take / ptr::write
+                # (whose stored value is judged above); anything else writes the header out of this rule's sight
+                fld = mir.place_fields(st["rv"]["place"])[-1]
+                t_ = f.term(b)
+                direct = False
+                if t_["k"] == "call" and mir.callee_path(t_) in ("core::mem::replace", "core::mem::take", "<*mut T>::write", "core::ptr::write") and not st["place"]["proj"]:
+                    a0 = t_["args"][0] if t_["args"] else {}
+                    if a0.get("k") in ("move", "copy") and not a0["place"]["proj"]:
+                        # the operand is this reference, or a reborrow `&mut *ref` of it made in the same block
+                        cur_ = a0["place"]["local"]
+                        for _ in range(3):
+                            if cur_ == st["place"]["local"]:
+                                direct = True
+                                break
+                            nxt = [s2["rv"]["place"]["local"] for s2 in f.blocks[b]["stmts"] if s2["k"] == "assign" and s2["place"]["local"] == cur_ and not s2["place"]["proj"]
+                                   and s2["rv"]["k"] in ("ref", "rawptr") and [p_["k"] for p_ in s2["rv"]["place"]["proj"]] == ["deref"]]
+                            if len(nxt) != 1:
+                                break
+                            cur_ = nxt[0]
+                if not direct:
+                    writers[fld].setdefault(f.short, []).append((b, i, False, "`&mut %s` escapes into a local or a call: stores through it are not tracked" % fld))
             if st["rv"]["k"] == "aggregate" and st["rv"].get("adt", "").endswith("::CircularBuffer"):
                 e = f.rvalue_expr(st["rv"], b, i)
                 d = dict(e[3])
